@@ -188,6 +188,11 @@ func fsInstances(seed uint64, tier string) []fsCfg {
 		add(fsCfg{Family: "var.Read", Var: &VarSpec{Sym: "Db"}, API: api, Payload: "hashdb2"})
 	}
 	add(fsCfg{Family: "var.Read", Var: &VarSpec{Sym: "Db"}, API: "obj.GetVar", Payload: "empty"})
+	// the legacy top-level helpers define "absent" and "EOF" as "variable not set" (empty database, nil error);
+	// every other failure of the filesystem has to surface. early_eof faults are therefore not injected here.
+	for _, acc := range []string{"GetPK", "GetKEK", "Getdb", "Getdbx"} {
+		add(fsCfg{Family: "var.Read", API: "efi." + acc})
+	}
 	for _, acc := range []string{"GetPK", "GetKEK", "Getdb", "Getdbx", "GetSetupMode", "GetSecureBoot", "GetBootOrder", "GetBootEntry", "GetLoaderEntrySelected"} {
 		add(fsCfg{Family: "var.Read", API: "typed." + acc})
 	}
@@ -573,6 +578,34 @@ func (c fsCfg) buildRead(w *fsWorld) fsOp {
 			return outBytes(b, err)
 		}}
 	}
+	if len(c.API) > 4 && c.API[:4] == "efi." {
+		w.legacy()
+		var v efivar.Efivar
+		var get func() (*signature.SignatureDatabase, error)
+		switch c.API[4:] {
+		case "GetPK":
+			v, get = efivar.PK, efi.GetPK
+		case "GetKEK":
+			v, get = efivar.KEK, efi.GetKEK
+		case "Getdb":
+			v, get = efivar.Db, efi.Getdb
+		case "Getdbx":
+			v, get = efivar.Dbx, efi.Getdbx
+		default:
+			harnessf("unknown legacy accessor %q", c.API)
+		}
+		put(refVarPath(fsDir, v.Name, *v.GUID), uint32(v.Attributes), fsPayload("hashdb2"))
+		return fsOp{kind: kind, relift: true, run: func() fsOut {
+			db, err := get()
+			if err != nil {
+				return fsOut{Failed: true, Err: err.Error()}
+			}
+			if db == nil {
+				return fsOut{Failed: true, Err: "nil database"}
+			}
+			return fsOut{Value: append([]byte("db:"), db.Bytes()...)}
+		}}
+	}
 	if len(c.API) > 6 && c.API[:6] == "typed." {
 		acc := c.API[6:]
 		api := w.objAPI()
@@ -795,6 +828,9 @@ func (e *faultseqEngine) plan(seed uint64, tier string) []fsCase {
 		c.Phase = "single"
 		for k, call := range r.calls {
 			for _, kind := range faultKindsFor(call) {
+				if kind == "early_eof" && len(c.API) > 4 && c.API[:4] == "efi." {
+					continue
+				}
 				switch kind {
 				case "partial_err", "short_nil":
 					for _, arg := range []int{1, 2, 1 << 30} {
@@ -829,6 +865,15 @@ func (e *faultseqEngine) plan(seed uint64, tier string) []fsCase {
 			}
 			seen[k] = true
 			kinds := faultKindsFor(rc.calls[k])
+			if len(rc.c.API) > 4 && rc.c.API[:4] == "efi." {
+				var ks []string
+				for _, kk := range kinds {
+					if kk != "early_eof" {
+						ks = append(ks, kk)
+					}
+				}
+				kinds = ks
+			}
 			if len(kinds) == 0 {
 				continue
 			}
